@@ -192,6 +192,12 @@ def extract(repo):
             and not re.search(r"strchr\(\s*delimiterList,\s*c\s*\)", cri):
         raise ValueError("CheckRemainingInput: delimiter test changed")
 
+    # ---- ReadEntityRef: the id is an `int` read with the formatted extractor (the model's extractInt32: range-checked)
+    ai = rd("src/clstepcore/sdaiApplication_instance.cc")
+    rer = _strip(_body(ai, r"SDAI_Application_instance\s*\*\s*ReadEntityRef\(\s*istream\s*&\s*in,", "ReadEntityRef"))
+    if not re.search(r"int\s+id\s*=\s*-1\s*;\s*in\s*>>\s*id\s*;\s*if\(\s*in\.fail\(\)\s*\)", rer):
+        raise ValueError("ReadEntityRef: the id is no longer read with `int id = -1; in >> id; if( in.fail() )`")
+
     # ---- STEPattribute::STEPread
     sr = _strip(_body(sa, r"Severity\s+STEPattribute::STEPread\(\s*istream", "STEPattribute::STEPread"))
     dl = set(re.findall(r"(?:ReadInteger|ReadReal|ReadNumber|ReadEntityRef|CheckRemainingInput)\([^;]*?\"([^\"]*)\"\s*(?:,\s*instances,\s*addFileId\s*)?\)\s*;", sr))
